@@ -9,9 +9,26 @@
 // The recording allocator never really frees before the end of the scenario (addresses stay unique); blocks given back
 // are poisoned for ASan, so any later access by the cache is reported.  A release of a dangling pointer is made with
 // the block temporarily readable (the one-time warning prints the released buffer with %s by design).
+//
+// INSTALLED mode (first token 2):  2 gop*  gop ::= :a n | :s n | :d k n | :f k n | :cc | :ca | :gi | :go   (coq/C18_ModelG.v)
+//   The recording allocator is the SimpleString allocator the scenario starts with.  :gi constructs a GlobalSimpleStringCache
+//   (placement new) on top of whatever is installed, :go destroys the most recent one; objects still alive at the end of the
+//   line are destroyed innermost first (one item each).  :a / :d / :f call alloc_memory / free_memory of the string allocator
+//   in force, :s n creates a SimpleString with a buffer of n bytes (released by deleting it when :d names its own size),
+//   :cc / :ca call clearCache / clearAllIncludingCurrentlyUsedMemory of the innermost object's cache.
+//   Between an object and the allocator it found installed sits a forwarding recorder (Fwd): it counts the pointers the
+//   object's cache obtained from its underlying allocator and has not returned (out) and returns of pointers that were not
+//   outstanding (dbl).  Observation item:  :j <nev> events (~ | :r id off) <warn> <out> <dbl>   (events = calls seen by the
+//   recording allocator, ids = its allocation ordinals).
+//   The strings the one-time warning builds for itself (StringFromFormat, UtestShell::print: sizes depend on wording and
+//   on the path of the source file) are served by the harness outside the cache: the user side goes through a shim that
+//   answers re-entrant requests from malloc, and so does the forwarding recorder while a destructor runs.
 #include "hlib.h"
+#include <set>
+#define private public
 #include "CppUTest/TestHarness.h"
 #include "CppUTest/SimpleStringInternalCache.h"
+#undef private
 #include "CppUTest/TestMemoryAllocator.h"
 #include "CppUTest/PlatformSpecificFunctions.h"
 #undef new
@@ -105,6 +122,161 @@ static void emit(Out& o, bool hasRet, const char* ret)
 
 static char gForeign[8][16];
 
+// ---------------------------------------------------------------------------------------------- installed mode
+static std::set<char*> gTemps;
+static char* tempAlloc(size_t n) { char* p = (char*)malloc(real(n)); memset(p, 0, real(n)); gTemps.insert(p); return p; }
+static bool tempFree(char* p) { std::set<char*>::iterator it = gTemps.find(p); if (it == gTemps.end()) return false; gTemps.erase(it); free(p); return true; }
+static bool gDtorWindow;
+
+class Fwd : public TestMemoryAllocator
+{
+public:
+    TestMemoryAllocator* target; std::vector<char*> out; unsigned long long dbl;
+    Fwd(TestMemoryAllocator* t) : TestMemoryAllocator("forwarding recorder", "fwd_alloc", "fwd_free"), target(t), dbl(0) {}
+    char* alloc_memory(size_t size, const char* f, size_t l) CPPUTEST_OVERRIDE
+    {
+        if (gDtorWindow) return tempAlloc(size);          // a destructor never requests memory: this is the warning's own string
+        char* p = target->alloc_memory(size, f, l);
+        out.push_back(p);
+        return p;
+    }
+    void free_memory(char* memory, size_t size, const char* f, size_t l) CPPUTEST_OVERRIDE
+    {
+        if (tempFree(memory)) return;
+        size_t i = out.size();
+        while (i > 0 && out[i - 1] != memory) i--;
+        if (i > 0) out.erase(out.begin() + (long)(i - 1)); else dbl++;
+        target->free_memory(memory, size, f, l);
+    }
+};
+class Shim : public TestMemoryAllocator
+{
+public:
+    TestMemoryAllocator* target; bool inTarget;
+    Shim() : TestMemoryAllocator("user side", "shim_alloc", "shim_free"), target(0), inTarget(false) {}
+    char* alloc_memory(size_t size, const char* f, size_t l) CPPUTEST_OVERRIDE
+    {
+        if (inTarget) return tempAlloc(size);
+        inTarget = true; char* p = target->alloc_memory(size, f, l); inTarget = false;
+        return p;
+    }
+    void free_memory(char* memory, size_t size, const char* f, size_t l) CPPUTEST_OVERRIDE
+    {
+        if (tempFree(memory)) return;
+        bool was = inTarget;
+        inTarget = true; target->free_memory(memory, size, f, l); inTarget = was;
+    }
+};
+struct Level { Fwd* fwd; GlobalSimpleStringCache* g; TestMemoryAllocator* galloc; };
+enum { MAXDEPTH = 16 };
+alignas(16) static char gGlobalMem[MAXDEPTH][sizeof(GlobalSimpleStringCache)];
+struct Handed { char* p; SimpleString* str; size_t size; };
+
+static void emitG(Out& o, bool hasRet, const char* ret, unsigned long long out, unsigned long long dbl)
+{
+    o << ":j" << hx(gNE);
+    for (size_t i = 0; i < gNE; i++) o << (gE[i].kind == 0 ? ":A" : ":F") << hx(gE[i].id) << hx(gE[i].sz);
+    if (hasRet) {
+        unsigned long long id = NOID, off = 0;
+        if (!ret || !findBlock(ret, id, off)) { id = NOID; off = 0; }
+        o << ":r" << hx(id) << hx(off);
+    }
+    else o << "~";
+    o << (gPrinted ? "1" : "0") << hx(out) << hx(dbl);
+    gNE = 0; gPrinted = false;
+}
+
+static void runInstalled(Toks& t, Out& o, RecAllocator& rec)
+{
+    static Shim shim;
+    std::vector<Level> lv;
+    std::vector<Handed> handed;
+    TestMemoryAllocator* before = SimpleString::stringAllocator_;
+    shim.target = &rec; shim.inTarget = false;
+    SimpleString::setStringAllocator(&shim);
+    gNE = 0; gPrinted = false;
+    bool ended = false;
+    while (true) {
+        std::string k;
+        if (!t.end()) k = t.sym();
+        else { ended = true; if (lv.empty()) break; k = "go"; }      // objects still alive are destroyed, innermost first
+        if (k == "a" || k == "s") {
+            size_t n = (size_t)t.u();
+            Handed h; h.str = 0; h.size = n;
+            if (k == "s") {
+                if (n == 0) { fprintf(stderr, "harness: a string has at least one byte\n"); exit(3); }
+                std::string txt(n - 1, 's');
+                h.str = new SimpleString(txt.c_str());
+                h.p = h.str->buffer_;
+            }
+            else {
+                h.p = shim.alloc_memory(n, __FILE__, __LINE__);
+                unsigned long long id, off;
+                if (h.p && findBlock(h.p, id, off) && !gB[id].freed && n > 0) { memset(h.p, 'a', n - 1); h.p[n - 1] = 0; }
+            }
+            handed.push_back(h);
+            emitG(o, true, h.p, lv.empty() ? 0 : lv.back().fwd->out.size(), lv.empty() ? 0 : lv.back().fwd->dbl);
+        }
+        else if (k == "d" || k == "f") {
+            size_t idx = (size_t)t.u(); size_t n = (size_t)t.u();
+            char* p; SimpleString* str = 0;
+            if (k == "f") p = gForeign[idx % 8];
+            else {
+                if (idx >= handed.size()) { fprintf(stderr, "harness: release of a request that has not happened\n"); exit(3); }
+                p = handed[idx].p;
+                if (handed[idx].str && handed[idx].size == n) { str = handed[idx].str; handed[idx].str = 0; }
+            }
+            unsigned long long id = 0, off; bool dangling = false;
+            if (k == "d" && p && findBlock(p, id, off) && gB[id].freed && !getenv("C18_STRICT_DANGLING")) { dangling = true; UNPOISON(gB[id].p, real(gB[id].sz)); }
+            if (str) delete str;                         // ~SimpleString: free_memory(buffer_, bufferSize_) of the allocator in force
+            else shim.free_memory(p, n, __FILE__, __LINE__);
+            if (dangling) POISON(gB[id].p, real(gB[id].sz));
+            emitG(o, false, 0, lv.empty() ? 0 : lv.back().fwd->out.size(), lv.empty() ? 0 : lv.back().fwd->dbl);
+        }
+        else if (k == "cc" || k == "ca") {
+            if (lv.empty()) { fprintf(stderr, "harness: nothing is installed\n"); exit(3); }
+            shim.inTarget = true;
+            SimpleStringInternalCache& cache = static_cast<SimpleStringCacheAllocator*>(lv.back().g->getAllocator())->cache_;    // the object's own cache
+            if (k == "cc") cache.clearCache(); else cache.clearAllIncludingCurrentlyUsedMemory();
+            shim.inTarget = false;
+            emitG(o, false, 0, lv.back().fwd->out.size(), lv.back().fwd->dbl);
+        }
+        else if (k == "gi") {
+            if (lv.size() >= MAXDEPTH) { fprintf(stderr, "harness: too many nested objects\n"); exit(3); }
+            Level l;
+            l.fwd = new Fwd(shim.target);
+            SimpleString::setStringAllocator(l.fwd);
+            l.g = new (gGlobalMem[lv.size()]) GlobalSimpleStringCache;
+            l.galloc = SimpleString::getStringAllocator();
+            lv.push_back(l);
+            shim.target = l.galloc;
+            SimpleString::setStringAllocator(&shim);
+            emitG(o, false, 0, l.fwd->out.size(), l.fwd->dbl);
+        }
+        else if (k == "go") {
+            if (lv.empty()) { fprintf(stderr, "harness: nothing is installed\n"); exit(3); }
+            Level l = lv.back(); lv.pop_back();
+            SimpleString::setStringAllocator(l.galloc);             // the state the constructor left
+            gDtorWindow = true; shim.inTarget = true;
+            l.g->~GlobalSimpleStringCache();
+            gDtorWindow = false; shim.inTarget = false;
+            TestMemoryAllocator* now = SimpleString::getStringAllocator();
+            shim.target = (now == l.fwd) ? l.fwd->target : now;      // whatever the destructor put back is what is used from here on
+            SimpleString::setStringAllocator(&shim);
+            emitG(o, false, 0, l.fwd->out.size(), l.fwd->dbl);
+            delete l.fwd;
+        }
+        else { fprintf(stderr, "harness: bad op %s\n", k.c_str()); exit(3); }
+        if (ended && lv.empty()) break;
+    }
+    // strings that outlived their cache: their buffers are gone already
+    for (size_t i = 0; i < handed.size(); i++)
+        if (handed[i].str) { handed[i].str->buffer_ = 0; handed[i].str->bufferSize_ = 0; delete handed[i].str; }
+    SimpleString::setStringAllocator(before);
+    for (std::set<char*>::iterator it = gTemps.begin(); it != gTemps.end(); ++it) free(*it);
+    gTemps.clear();
+}
+
 int main()
 {
     Toks t; Out o;
@@ -117,6 +289,13 @@ int main()
         int via = t.n();
         gNE = 0; gPrinted = false;
         PlatformSpecificFPuts = hookFPuts; PlatformSpecificFlush = hookFlush;
+        if (via == 2) {
+            runInstalled(t, o, rec);
+            PlatformSpecificFPuts = savedFPuts; PlatformSpecificFlush = savedFlush;
+            recReset();
+            o.flush();
+            continue;
+        }
         // construction
         void* (*savedMalloc)(size_t) = PlatformSpecificMalloc;
         PlatformSpecificMalloc = hookMalloc;
